@@ -27,7 +27,10 @@ def build():
     if not os.path.exists(mp) or open(mp).read() != new:
         open(mp, "w").write(new)
     cargo = open(os.path.join(REPO, "Cargo.toml")).read()
-    open(os.path.join(FDIR, "Cargo.toml"), "w").write(cargo + "\n[workspace]\n")
+    new_cargo = cargo + "\n[workspace]\n\n[profile.dev]\nopt-level = 2\ndebug = false\noverflow-checks = true\ndebug-assertions = true\n"
+    cp = os.path.join(FDIR, "Cargo.toml")
+    if not os.path.exists(cp) or open(cp).read() != new_cargo:
+        open(cp, "w").write(new_cargo)
     shutil.copy(os.path.join(REPO, "Cargo.lock"), os.path.join(FDIR, "Cargo.lock"))
     env = dict(os.environ, CARGO_NET_OFFLINE="true")
     p = subprocess.run(["cargo", "build", "--offline", "--quiet"], cwd=FDIR, env=env, capture_output=True, text=True)
